@@ -18,7 +18,12 @@ RULE = ("every operation (havespace, putscript, checkscript, deletescript, setac
         "response code (absent, atom, atom with slash, TAG/SASL/REFERRAL with a string "
         "parameter, WARNINGS) x text (absent, quoted plain / with escaped quote / with "
         "backslash / non-ASCII, literal one-line / multi-line / empty) - the full product; "
-        "plus NO/BYE at each step of connect and of the emulated rename. Non-trivial = every "
+        "plus NO/BYE at each step of connect and of the emulated rename (this product is "
+        "enumerated completely in both tiers); plus random replies from the grammar (random "
+        "code atoms with slashes, string parameters, texts with escapes / non-ASCII / CRLF / "
+        "status look-alikes, quoted or literal) served in runs of several replies on one "
+        "connection under random recv() segmentation (quick 4 000, thorough 400 000). Every "
+        "case is preceded by a priming NO with its own code and text. Non-trivial = every "
         "case; distinct = distinct (op, reply bytes).")
 ASSUMPTIONS = [
     "lenient on representation: errmsg may be the raw or the unescaped quoted content, with "
@@ -26,11 +31,11 @@ ASSUMPTIONS = [
     "upper-case status atoms only",
     "multi-step operations: a NO at an inner step may surface as False/None or as Error",
 ]
-EXHAUSTIVE = {"quick": True, "thorough": True}
+EXHAUSTIVE = {"quick": False, "thorough": False}
 FLOORS = {"quick": {"cases": 2000, "status:NO": 700, "status:BYE": 500, "status:OK": 500,
-                    "sentinel-pairs": 1200},
-          "thorough": {"cases": 2000, "status:NO": 700, "status:BYE": 500, "status:OK": 500,
-                       "sentinel-pairs": 1200}}
+                    "sentinel-pairs": 1200, "random-cases": 3000},
+          "thorough": {"cases": 300000, "status:NO": 100000, "status:BYE": 50000,
+                       "status:OK": 50000, "sentinel-pairs": 100000, "random-cases": 300000}}
 SHARD_TIMEOUT = {"quick": 600, "thorough": 3000}
 
 CODES = [("none", None), ("atom", b"QUOTA"), ("slash", b"QUOTA/MAXSCRIPTS"),
@@ -66,6 +71,9 @@ def plan(tier, seed):
     n = len(all_cases())
     shards = [{"w": "product", "range": [s, e]} for s, e in split(n, 16)]
     shards.append({"w": "multistep"})
+    nr = 4000 if tier == "quick" else 400000
+    for i, (s, e) in enumerate(split(nr, 16 if tier == "quick" else 64)):
+        shards.append({"w": "random", "n": e - s, "rs": seed * 1000003 + i})
     return shards
 
 
@@ -83,13 +91,15 @@ def acceptable_msgs(text, how):
     return out
 
 
-def run_case(case, res: Result):
+def run_case(case, res: Result, sess=None):
     op, st, cn, code, tn, text, how = case
-    srv = ms.Server(users={b"user": b"pw"})
-    sess, r = mslab.authed_session(srv)
-    if r != ("ret", True):
-        res.inconclusive.append("auth failed %r" % (r,))
-        return
+    if sess is None:
+        srv = ms.Server(users={b"user": b"pw"})
+        sess, r = mslab.authed_session(srv)
+        if r != ("ret", True):
+            res.inconclusive.append("auth failed %r" % (r,))
+            return False
+    srv = sess.server
     final = reply_bytes(st, code, text, how)
     body = DATA[op] if (op in DATA_OPS and st == "OK") else b""
     # priming: an earlier NO with its own code and text on the same client, so that values
@@ -141,9 +151,9 @@ def run_case(case, res: Result):
     res.monitor("status-mirror", problem is not None)
     if problem:
         res.violation(dict(sig0, problem=problem), wit)
-        return
+        return False
     if st == "BYE":
-        return
+        return False
     # sentinels: the next two operations must get their own replies
     s1 = sess.call("havespace", "s", 1)
     s2 = sess.call("deletescript", "s2")
@@ -157,6 +167,52 @@ def run_case(case, res: Result):
                       dict(wit, sentinel1=repr(s1), sentinel2=repr(s2),
                            sentinel_errcode=repr(sess.client.errcode),
                            unread=repr((left, buf))))
+        return False
+    return True
+
+
+ATOMCH = "ABCDEFGHIJKLMNOPQRSTUVWXYZ0123456789-/"
+TEXTCH = ["a", "B", " ", "\"", "\\", "(", ")", "{", "}", "3", "é", "€", "OK", "NO", "BYE", "'",
+          ";", "%"]
+
+
+def random_case(rng):
+    op = rng.choice(list(BOOL_OPS) + list(DATA_OPS))
+    st = rng.choice(["OK", "NO", "NO", "BYE"])
+    code = None
+    cn = "none"
+    if rng.random() < 0.6:
+        code = "".join(rng.choice(ATOMCH) for _ in range(rng.randint(1, 12))).strip("/-") or "X"
+        code = code.encode()
+        cn = "atom"
+        if rng.random() < 0.4:
+            par = "".join(rng.choice(TEXTCH) for _ in range(rng.randint(0, 6)))
+            code += b" " + ms.quoted(par.encode("utf-8"))
+            cn = "with-string-param"
+    text, how, tn = None, None, "none"
+    if rng.random() < 0.8:
+        t = "".join(rng.choice(TEXTCH + ["\r\n"]) for _ in range(rng.randint(0, 10)))
+        text = t.encode("utf-8")
+        how = "literal" if ("\r\n" in t or rng.random() < 0.4) else "quoted"
+        tn = how
+    return (op, st, cn, code, tn, text, how)
+
+
+def run_random(shard, res: Result):
+    rng = random.Random(shard["rs"])
+    sess = None
+    for i in range(shard["n"]):
+        if sess is None or rng.random() < 0.2:
+            srv = ms.Server(users={b"user": b"pw"})
+            seg = ms.Seg(rng=random.Random(rng.randrange(1 << 30))) if rng.random() < 0.5 \
+                else ms.Seg()
+            sess, r = mslab.authed_session(srv, seg)
+            if r != ("ret", True):
+                res.inconclusive.append("auth failed %r" % (r,))
+                return
+        res.count("random-cases")
+        if not run_case(random_case(rng), res, sess):
+            sess = None
 
 
 def run_multistep(res: Result):
@@ -212,6 +268,9 @@ def run_multistep(res: Result):
 def run_shard(tier, shard, res: Result):
     if shard["w"] == "multistep":
         run_multistep(res)
+        return
+    if shard["w"] == "random":
+        run_random(shard, res)
         return
     cases = all_cases()
     s, e = shard["range"]
